@@ -179,7 +179,8 @@ PROPS['C06'] = hist_prop(5,
 PROPS['C18'] = hist_prop(7,
     "Theorems C18_* prove for one outcome step from any state: a timestamped aggregate of a still-referenced (stream, aggregator) "
     "pair is kept, replaced by a strictly newer one, or by a non-timestamped value only if aggregation yields one; when aggregation "
-    "fails it is carried forward bit for bit; aggregates of unreferenced pairs are dropped.",
+    "fails it is carried forward bit for bit; aggregates of unreferenced pairs are dropped. The same three laws are stated for one "
+    "byte-level call of Plugin.Outcome (C18_*_on_the_wire), the observed-at monotonicity over byte-level histories.",
     "none beyond the model/implementation correspondence")
 PROPS['C02']['projections'].append(dict(name='history', spec_index=1, n_quick=60, n_thorough=600))
 PROPS['C02']['projections'].append(dict(name='observe', spec_index=1, n_quick=300, n_thorough=8000))
